@@ -123,7 +123,7 @@ PROPS = {
     "C07": dict(
         modules=["Syzgy.Props.C07"], ties=["Storage"],
         runs={"quick": [["store-C07", "--scenarios", "8", "--ops", "150"]],
-              "thorough": [["store-C07", "--scenarios", "40", "--ops", "600"]]},
+              "thorough": [["store-C07", "--scenarios", "24", "--ops", "250"]]},
         trusted=STORE_TRUST + ["crash model of the property: a store through the shared mapping persists once issued; granularity = one storage call"],
         statement="recovery from every crash image re-establishes the full invariant; affected document old-or-new",
         partial="proved (unbounded): for every operation sequence from a state satisfying the invariants and every crash image of the next WriteRecord (after grow / writeAt / markFreed; fresh id or overwrite; reuse or growth) or RemoveRecord, a writable open succeeds, the recovered state satisfies the representation invariant (well-formed chain, no id active twice, exact index and free map) and stands for the store before or after the operation (C07.crash_at_any_step_of_any_write, crash_during_write, crash_during_remove, recovery_keeps_newer, new_file_invariants). Hypotheses: the format's 32-bit limits and no wrap of the 32-bit sequence counter. Crash granularity = one storage call (the property's crash model); a torn write inside one writeAt is outside it. The same at the document level (Lemmas/CrashColl.lean): crash_during_any_document_operation / crash_after_any_document_history — every crash image of AddDocument, UpdateDocument or a removal, in every state reachable from a new collection, reopens through NewCollection (header read, options, index rebuild over every record) as a collection with the creation options representing the store before or after the operation; recovered_collection_continues — continuing with any operations and reopening again follows the specification from the recovered store, so no older version comes back; new_collection_invariants discharges the hypotheses for histories starting with creation. json.Unmarshal of the header is an oracle parameter (dec). The Collection layer is additionally tied by correspondence at every storage-step boundary (plus continuation and second reopen)",
